@@ -1,7 +1,7 @@
 (* C07 — the two in-place passes. *)
 From Coq Require Import MSets.MSetPositive FSets.FMapPositive.
 From SwayV Require Import Base.Util Asm.Model Asm.Erase Asm.Inplace C08.Spec C08.Model C08.Sim C08.Check
-  C07.Model C07.Spec.
+  C07.Model C07.Spec C07.Proofs.
 Local Open Scope N_scope.
 
 Lemma live_gen_used kill l i r : live_gen kill l i r -> exists k o, nth_error l k = Some o /\ In r (uses o).
@@ -114,3 +114,88 @@ Qed.
 Theorem remove_redundant_moves_preserves ops out : moves_table_ok ops = true ->
   remove_redundant_moves ops = Some out -> lock_equiv ops out.
 Proof. unfold remove_redundant_moves. apply remove_redundant_moves_loop_equiv. Qed.
+
+(* ---- remove_sequential_jumps ---- *)
+Definition rsj_at (a : op) (nxt : option op) : op :=
+  match nxt with Some b => if jump_to_next a b then NOOP_OP else a | None => a end.
+
+Lemma rsj_nth : forall ops i,
+  nth_error (remove_sequential_jumps ops) i =
+  option_map (fun a => rsj_at a (nth_error ops (S i))) (nth_error ops i).
+Proof.
+  induction ops as [|a t IH]; intros i; [destruct i; reflexivity|].
+  cbn [remove_sequential_jumps]. destruct t as [|b t'].
+  - destruct i as [|i]; [reflexivity|]. destruct i; reflexivity.
+  - destruct i as [|i]; [reflexivity|]. cbn [nth_error]. rewrite IH. reflexivity.
+Qed.
+
+Lemma find_index_pointwise {A} (p : A -> bool) : forall l1 l2,
+  (forall i, option_map p (nth_error l1 i) = option_map p (nth_error l2 i)) ->
+  find_index p l1 = find_index p l2.
+Proof.
+  induction l1 as [|x l1 IH]; intros l2 H.
+  - destruct l2 as [|y l2]; [reflexivity|]. specialize (H 0%nat). discriminate.
+  - destruct l2 as [|y l2]; [specialize (H 0%nat); discriminate|].
+    pose proof (H 0%nat) as H0. cbn in H0. injection H0 as H0. cbn [find_index]. rewrite H0.
+    destruct (p y); [reflexivity|]. rewrite (IH l2); [reflexivity|]. intros i. exact (H (S i)).
+Qed.
+
+Lemma rsj_label ops l : label_index (remove_sequential_jumps ops) l = label_index ops l.
+Proof.
+  unfold label_index. apply find_index_pointwise. intros i. rewrite rsj_nth.
+  destruct (nth_error ops i) as [a|]; [|reflexivity]. cbn [option_map]. f_equal. unfold rsj_at.
+  destruct (nth_error ops (S i)) as [b|]; [|reflexivity].
+  destruct (jump_to_next a b) eqn:E; [|reflexivity].
+  unfold jump_to_next in E. unfold is_label. destruct (kind a); try discriminate; reflexivity.
+Qed.
+
+Lemma memb_labels l ops j b : nth_error ops j = Some b -> kind b = KLabel l -> memb l (labels_of ops) = true.
+Proof.
+  intros Hn Hk. apply In_memb. unfold labels_of. apply in_flat_map. exists b. split; [eapply nth_error_In; exact Hn|].
+  rewrite Hk. left. reflexivity.
+Qed.
+
+Lemma unique_label_index : forall ops j b l, nodup_b (labels_of ops) = true ->
+  nth_error ops j = Some b -> kind b = KLabel l -> label_index ops l = Some j.
+Proof.
+  unfold label_index. induction ops as [|x t IH]; intros j b l Hnd Hn Hk; [destruct j; discriminate|].
+  cbn [find_index]. destruct j as [|j]; cbn in Hn.
+  - injection Hn as ->. unfold is_label. rewrite Hk, N.eqb_refl. reflexivity.
+  - assert (Hx : is_label l x = false).
+    { unfold is_label. destruct (kind x) as [| |l'| | | | | |] eqn:Hkx; try reflexivity.
+      destruct (N.eqb_spec l' l) as [->|]; [|reflexivity]. exfalso.
+      unfold labels_of in Hnd. cbn [flat_map] in Hnd. rewrite Hkx in Hnd. cbn [app nodup_b] in Hnd.
+      apply andb_true_iff in Hnd. destruct Hnd as [Hnd _]. apply negb_true_iff in Hnd.
+      fold (labels_of t) in Hnd. rewrite (memb_labels l t j b Hn Hk) in Hnd. discriminate. }
+    rewrite Hx. rewrite (IH j b l); [reflexivity| |exact Hn|exact Hk].
+    unfold labels_of in *. cbn [flat_map] in Hnd. destruct (kind x); try exact Hnd.
+    cbn [app nodup_b] in Hnd. apply andb_true_iff in Hnd. tauto.
+Qed.
+
+Theorem remove_sequential_jumps_preserves_partial ops :
+  forallb wf_c_opb ops = true -> nodup_b (labels_of ops) = true -> seqj_flags_dead ops ->
+  lock_equiv ops (remove_sequential_jumps ops).
+Proof.
+  intros Hw Hnd Hdead M sem cs Hrv. exists (Ri M (remove_sequential_jumps ops) flagK). split.
+  - apply inplace_lock_sim with (ops := ops).
+    + rewrite forallb_forall in Hw. intros i o Hn. apply wf_c_opb_sound. apply Hw. eapply nth_error_In; eassumption.
+    + exact Hrv.
+    + exact flagK_not_call_in.
+    + intros c Hc _. exact Hc.
+    + apply rsj_label.
+    + intros i a Hn. unfold same_or_noop. rewrite rsj_nth, Hn. cbn [option_map]. unfold rsj_at.
+      destruct (nth_error ops (S i)) as [b|] eqn:Hnb; [|left; reflexivity].
+      destruct (jump_to_next a b) eqn:E; [|left; reflexivity].
+      right. exists NOOP_OP. split; [reflexivity|]. split; [reflexivity|]. split; [reflexivity|]. right. split.
+      * unfold jump_to_next in E.
+        destruct (kind a) as [| | |l|l c| | | |] eqn:Hka; try discriminate;
+          destruct (kind b) as [| |l'| | | | | |] eqn:Hkb; try discriminate;
+          apply N.eqb_eq in E; subst l'; exists l; (split; [|eapply unique_label_index; eassumption]).
+        -- left. reflexivity.
+        -- right. exists c. reflexivity.
+      * intros c Hc. split.
+        -- destruct Hc as [<-|[<-|[]]]; [left|right]; reflexivity.
+        -- eapply Hdead; eassumption.
+    + intros i Hn. rewrite rsj_nth, Hn. reflexivity.
+  - intros st _. apply Ri_refl.
+Qed.
